@@ -42,23 +42,7 @@ def _cuts(case):
     return out
 
 
-def sig_cr_boundary(case, params):
-    """A read boundary between the CR and the LF of a line terminator, the split run fails with LineTooLong."""
-    if case.get("kind") != "early-or-flip" or "LineTooLong" not in case.get("split_outcome", ""):
-        return False
-    s = bytes.fromhex(case["stream"])
-    return any(0 < c < len(s) and s[c - 1] == 13 and s[c] == 10 for c in _cuts(case))
-
-
-def sig_lax_double_cr(case, params):
-    """Response (lax) parser: a read boundary inside a run of CRs before LF after chunk data."""
-    if case.get("parser") != "response":
-        return False
-    s = bytes.fromhex(case["stream"])
-    return any(0 < c < len(s) and s[c - 1] == 13 and s[c] in (13, 10) for c in _cuts(case)) and b"\r\r" in s
-
-
-SIGNATURES = {"cr_boundary_limit": sig_cr_boundary, "lax_double_cr": sig_lax_double_cr}
+SIGNATURES = {}
 
 COMPLETIONS = [b"\r\n\r\n", b"\r\n0\r\n\r\n", b"\r\n\r\n0\r\n\r\n", b"\n\r\n\r\n"]
 
